@@ -54,6 +54,28 @@ FirstFrom(P(_), a, b) == IF a > b THEN a
 TailWhere(d, P(_)) ==
   LET lo == SetMin(DOMAIN d)  hi == SetMax(DOMAIN d) IN SumRange(d, FirstFrom(P, lo, hi), hi)
 
+\* ---- saturating variant, for backgrounds whose denominators bd^M leave the 32-bit integers of TLC --------------------
+\* Numerators are capped at `cap` (cap * max bn and 4 * cap must fit in 32 bits): sums and tails are exact below the
+\* cap and equal to the cap otherwise, so every comparison "tail <= n" / "tail >= n" with n < cap is still decided
+\* exactly.  Used for the extreme upper tail (p of the order of 1e-17), where the numerators are small integers.
+CapAt(a, cap) == IF a > cap THEN cap ELSE a
+RECURSIVE SatSumTo(_, _, _)
+SatSumTo(f, n, cap) == IF n = 0 THEN 0 ELSE CapAt(SatSumTo(f, n - 1, cap) + f[n], cap)
+RECURSIVE ConvToSat(_, _, _, _, _)
+ConvToSat(m, bn, K, i, cap) ==
+  IF i = 0 THEN [s \in 0..0 |-> 1]
+  ELSE LET prev == ConvToSat(m, bn, K, i - 1, cap)
+           lo == SetMin(DOMAIN prev) + RowLo(m[i], K)
+           hi == SetMax(DOMAIN prev) + RowHi(m[i], K)
+       IN [s \in lo..hi |->
+             SatSumTo([k \in 1..NS(K) |-> IF (s - m[i][k]) \in DOMAIN prev THEN CapAt(prev[s - m[i][k]] * bn[k], cap) ELSE 0], NS(K), cap)]
+ConvDistSat(m, bn, K, cap) == ConvToSat(m, bn, K, Len(m), cap)
+RECURSIVE SumRangeSat(_, _, _, _)
+SumRangeSat(d, a, b, cap) == IF a > b THEN 0 ELSE IF a = b THEN d[a]
+                             ELSE LET mid == (a + b) \div 2 IN CapAt(SumRangeSat(d, a, mid, cap) + SumRangeSat(d, mid + 1, b, cap), cap)
+TailWhereSat(d, P(_), cap) ==
+  LET lo == SetMin(DOMAIN d)  hi == SetMax(DOMAIN d) IN SumRangeSat(d, FirstFrom(P, lo, hi), hi, cap)
+
 Pow(b, e) == IF e = 0 THEN 1 ELSE IF e = 1 THEN b ELSE IF e = 2 THEN b * b ELSE IF e = 3 THEN b * b * b
              ELSE IF e = 4 THEN b * b * b * b ELSE IF e = 5 THEN b * b * b * b * b
              ELSE IF e = 6 THEN b * b * b * b * b * b ELSE IF e = 7 THEN b * b * b * b * b * b * b
